@@ -410,7 +410,7 @@ fn parse_at_rule(
                 "starting-style",
             ]
             .iter()
-            .any(|name| x.eq_ignore_ascii_case(name));
+            .any(|name| strip_vendor_prefix(x).eq_ignore_ascii_case(name));
             loop {
                 let r = input.try_parse::<_, _, ParseError<()>>(|input| {
                     let next = input.next()?;
@@ -677,12 +677,25 @@ struct ConvertOptions {
 /// Whether the arguments of a function are calculations
 /// (where the `+` and `-` operators must be surrounded by whitespace).
 fn is_math_function(name: &str) -> bool {
+    let name = strip_vendor_prefix(name);
     [
         "calc", "min", "max", "clamp", "round", "mod", "rem", "sin", "cos", "tan", "asin", "acos",
-        "atan", "atan2", "pow", "sqrt", "hypot", "log", "exp", "abs", "sign",
+        "atan", "atan2", "pow", "sqrt", "hypot", "log", "exp", "abs", "sign", "calc-size",
     ]
     .iter()
     .any(|x| name.eq_ignore_ascii_case(x))
+}
+
+/// The name without its vendor prefix (`-webkit-calc` is `calc`, `-moz-document` is `document`).
+fn strip_vendor_prefix(name: &str) -> &str {
+    if let Some(rest) = name.strip_prefix('-') {
+        if let Some(i) = rest.find('-') {
+            if i > 0 {
+                return &rest[i + 1..];
+            }
+        }
+    }
+    name
 }
 
 fn convert_rpx_in_block(
